@@ -186,6 +186,15 @@ def run(tier, seed):
         ob["replay_path"] = path
         ob["replay"] = {"path": path, "outcome": "model-only", "message": "which namespaces exist (created by a user / referenced by a config / by a service) before the snapshot is built"}
     obligations.append(ob)
+    # record order of the MCP registry's snapshot (servers are resolved against the tool specs loaded before them)
+    from . import c01mcp
+    ob = c01mcp.run(tier, seed)
+    if ob.get("verdict") == "violation":
+        from lib import native
+        path = native.write_replay("C01", "c01", "model", [], {"engine": "smt", "mode": "model-only", "obligation": ob["harness"], "message": ob["message"], "model": ob.get("counterexample")})
+        ob["replay_path"] = path
+        ob["replay"] = {"path": path, "outcome": "model-only", "message": "order of the record trees in the snapshot"}
+    obligations.append(ob)
     info["wall_s"] = round(time.time() - t0, 1)
     return {"obligations": obligations, "info": info}
 
